@@ -478,7 +478,7 @@ def run(F, R, tier):
 
         # ---- R6: large-argument expansion ---------------------------------------------------------------------------
         for facts, aval, kinds in cl["other"]:
-            big = [k for k in kinds if k[0] in ("gt", "ge") and k[1] is not None and k[1] > 1]
+            big = [k for k in kinds if k[0] in ("gt", "ge") and k[1] is not None and k[1] > 0]
             if cname == "f_PS":
                 R.analysed.setdefault("undecided_regimes", []).append("f_PS under %s" % (kinds,))
                 continue
